@@ -289,7 +289,7 @@ func (g *ExprGen) leaf(p scopePath, depth int) string {
 		}
 	case "slice":
 		if depth > 0 && g.R.Chance(0.45) {
-			return g.quantifier(p, depth)
+			return "( " + g.quantifier(p, depth) + " )"
 		}
 		elemLit := `"a"`
 		if p.Val.IsValid() && p.Val.Len() > 0 {
@@ -325,7 +325,7 @@ func (g *ExprGen) leaf(p scopePath, depth int) string {
 		}
 	case "map":
 		if depth > 0 && g.R.Chance(0.5) {
-			return g.quantifier(p, depth)
+			return "( " + g.quantifier(p, depth) + " )"
 		}
 		key := g.R.Pick(keyWords)
 		if p.Val.IsValid() && p.Val.Len() > 0 && hit {
